@@ -29,16 +29,34 @@ theorem creditAll_get (l : List Frozen) (b : Bag (Addr × Coin)) (k : Addr × Co
     · simp only [h0, if_true, true_and, Bag.get_add]; omega
     · simp [h0]
 
+/-- The moves stored under `h` whose target id is not the id of a candidate, re-frozen as unbonds due `h + unbond`
+    (since fix 0ed8cf3 BeginBlock unbonds such a move instead of dereferencing the missing candidate). -/
+def refrozenOf (u h : Nat) (ids : List Nat) (all : List Frozen) : List Frozen :=
+  ((all.filter (dueAt h)).filter (targetMissing ids)).map (refreeze u h)
+
+theorem refrozenOf_mem (u h : Nat) (ids : List Nat) (all : List Frozen) (g : Frozen) (hg : g ∈ refrozenOf u h ids all) :
+    ∃ f ∈ all, f.height = h ∧ f.moveTo ≠ 0 ∧ ids.contains f.moveTo = false ∧ g = refreeze u h f
+      ∧ g.height = h + u ∧ g.moveTo = 0 ∧ g.addr = f.addr ∧ g.coin = f.coin ∧ g.value = f.value
+      ∧ g.candKey = f.candKey ∧ g.candId = f.candId := by
+  obtain ⟨f, hf, rfl⟩ := List.mem_map.mp hg
+  obtain ⟨hf1, hm⟩ := List.mem_filter.mp hf
+  obtain ⟨hf2, hd⟩ := List.mem_filter.mp hf1
+  simp only [targetMissing, Bool.and_eq_true, bne_iff_ne, Bool.not_eq_true'] at hm
+  exact ⟨f, hf2, by simpa [dueAt] using hd, hm.1, hm.2, rfl, rfl, rfl, rfl, rfl, rfl, rfl, rfl⟩
+
 /-- **frozen_released_only_when_due.** After BeginBlock at height `h` the frozen funds are: the old ones, each with every
     field unchanged except that the value was cut once per byzantine punishment matching it (`slashBy` over the candidate ids
     punished in this block), followed by the remainder funds of punished stakes (all due `h + unbond`, none a move) — minus
-    exactly the funds stored under `h`.  The balances are the old balances plus, in order, the non-move funds stored under `h`. -/
+    exactly the funds stored under `h` — plus, for every move stored under `h` whose target candidate is gone, an unbond fund
+    of the same owner, coin, value and origin due `h + unbond`.
+    The balances are the old balances plus, in order, the non-move funds stored under `h`.
+    (`0 < unbond`: the real period is the constant 518400 resp. 531.) -/
 theorem frozen_released_only_when_due (P : Params) (o : Oracle) (s s' : State) (r : BeginReq) (grace : Bool) (ev : List BEvent)
-    (hr : beginBlock P o s r grace = .ok (s', ev)) :
+    (hu : 0 < P.unbond) (hr : beginBlock P o s r grace = .ok (s', ev)) :
     ∃ sA evA new, absencePhase P r.height grace r.votes { s with rewardsPool := 0 } = .ok (sA, evA) ∧
       let ids := byzPunishedIds P o r.height r.byz sA
       let all := s.frozen.map (slashBy r.height (r.height + P.unbond) ids) ++ new
-      s'.frozen = all.filter (fun f => !dueAt r.height f)
+      s'.frozen = all.filter (fun f => !dueAt r.height f) ++ refrozenOf P.unbond r.height (s.candidates.map (·.id)) all
       ∧ s'.balances = creditAll (all.filter (dueAt r.height)) s.balances
       ∧ (∀ f ∈ new, f.height = r.height + P.unbond ∧ f.moveTo = 0) := by
   simp only [beginBlock] at hr
@@ -52,25 +70,27 @@ theorem frozen_released_only_when_due (P : Params) (o : Oracle) (s s' : State) (
     | ok rB =>
       obtain ⟨sB, evB⟩ := rB
       simp only [hB] at hr
-      cases hC : maturityPhase r.height sB with
+      cases hC : maturityPhase P.unbond r.height sB with
       | error e => simp only [hC] at hr; cases hr
       | ok rC =>
         obtain ⟨sC, evC⟩ := rC
         simp only [hC] at hr
         cases hr
         have fA := absencePhase_sameValue P r.height grace r.votes _ sA evA hA
+        have idA := absencePhase_ids P r.height grace r.votes _ sA evA hA
+        have idB := byzPhase_ids P o r.height r.byz sA sB evB hB
         obtain ⟨new, hfr, hnew⟩ := byzPhase_frozen P o r.height r.byz sA sB evB hB
         obtain ⟨hbal, _⟩ := byzPhase_frame P o r.height r.byz sA sB evB hB
-        obtain ⟨hf', hb', _⟩ := maturityPhase_effect r.height sB s' evC hC
+        obtain ⟨hf', hb', _⟩ := maturityPhase_effect P.unbond r.height hu sB s' evC hC
         refine ⟨sA, evA, new, rfl, ?_, ?_, hnew⟩
-        · rw [hf', hfr, fA.frozen]
+        · rw [hf', hfr, fA.frozen, idB, idA]; rfl
         · rw [hb', hfr, fA.frozen, hbal, fA.balances]
 
 /-- **Nothing returns earlier, nothing stays longer.** A fund that is not due at this height is still there afterwards: same
     owner, coin, due height, origin and move target; its value is between 0 and the old value, and it is untouched unless a
     candidate id punished in this block matches it inside the punishment window.  No fund stored under `h` is left. -/
 theorem not_due_survives (P : Params) (o : Oracle) (s s' : State) (r : BeginReq) (grace : Bool) (ev : List BEvent)
-    (hr : beginBlock P o s r grace = .ok (s', ev)) :
+    (hu : 0 < P.unbond) (hr : beginBlock P o s r grace = .ok (s', ev)) :
     (∀ f ∈ s'.frozen, f.height ≠ r.height) ∧
     ∃ sA evA, absencePhase P r.height grace r.votes { s with rewardsPool := 0 } = .ok (sA, evA) ∧
     ∀ f ∈ s.frozen, f.height ≠ r.height →
@@ -78,46 +98,56 @@ theorem not_due_survives (P : Params) (o : Oracle) (s s' : State) (r : BeginReq)
         ∧ f'.coin = f.coin ∧ f'.moveTo = f.moveTo
         ∧ (0 ≤ f.value → 0 ≤ f'.value ∧ f'.value ≤ f.value)
         ∧ ((∀ cid ∈ byzPunishedIds P o r.height r.byz sA, inWindow r.height (r.height + P.unbond) cid f = false) → f' = f) := by
-  obtain ⟨sA, evA, new, hA, hfr, _, _⟩ := frozen_released_only_when_due P o s s' r grace ev hr
+  obtain ⟨sA, evA, new, hA, hfr, _, _⟩ := frozen_released_only_when_due P o s s' r grace ev hu hr
   constructor
   · intro f hf
     rw [hfr] at hf
-    have := (List.mem_filter.mp hf).2
-    simpa [dueAt] using this
+    rcases List.mem_append.mp hf with hf | hf
+    · have := (List.mem_filter.mp hf).2
+      simpa [dueAt] using this
+    · obtain ⟨_, _, _, _, _, _, hh, _⟩ := refrozenOf_mem _ _ _ _ f hf
+      omega
   · refine ⟨sA, evA, hA, fun f hf hd => ?_⟩
     obtain ⟨a1, a2, a3, a4, a5, a6⟩ := slashBy_fields r.height (r.height + P.unbond) (byzPunishedIds P o r.height r.byz sA) f
     refine ⟨slashBy r.height (r.height + P.unbond) (byzPunishedIds P o r.height r.byz sA) f, ?_, a1, a2, a3, a4, a5, a6,
       slashBy_value_le _ _ _ _, slashBy_untouched _ _ _ _⟩
     rw [hfr]
+    apply List.mem_append_left
     apply List.mem_filter.mpr
     refine ⟨List.mem_append_left _ (List.mem_map.mpr ⟨f, hf, rfl⟩), ?_⟩
     simp [dueAt, a1, hd]
 
-/-- Without evidence in the block every fund that is not due stays exactly as it is. -/
+/-- Without evidence in the block every fund that is not due stays exactly as it is; the only new funds are the re-frozen
+    moves towards candidates that no longer exist. -/
 theorem no_evidence_funds_untouched (P : Params) (o : Oracle) (s s' : State) (r : BeginReq) (grace : Bool) (ev : List BEvent)
-    (hr : beginBlock P o s r grace = .ok (s', ev)) (hb : r.byz = []) :
-    s'.frozen = s.frozen.filter (fun f => !dueAt r.height f) := by
-  obtain ⟨sA, evA, new, hA, hfr, _, _⟩ := frozen_released_only_when_due P o s s' r grace ev hr
+    (hu : 0 < P.unbond) (hr : beginBlock P o s r grace = .ok (s', ev)) (hb : r.byz = []) :
+    s'.frozen = s.frozen.filter (fun f => !dueAt r.height f) ++ refrozenOf P.unbond r.height (s.candidates.map (·.id)) s.frozen
+    ∧ s'.balances = creditAll (s.frozen.filter (dueAt r.height)) s.balances := by
+  obtain ⟨sA, evA, new, hA, _, _, _⟩ := frozen_released_only_when_due P o s s' r grace ev hu hr
   simp only [beginBlock, hA, hb, byzPhase] at hr
-  cases hC : maturityPhase r.height sA with
+  cases hC : maturityPhase P.unbond r.height sA with
   | error e => simp only [hC] at hr; cases hr
   | ok rC =>
     obtain ⟨sC, evC⟩ := rC
     simp only [hC] at hr
     cases hr
-    obtain ⟨hf', _⟩ := maturityPhase_effect r.height sA s' evC hC
-    rw [hf', (absencePhase_sameValue P r.height grace r.votes _ sA evA hA).frozen]
+    obtain ⟨hf', hbal, _⟩ := maturityPhase_effect P.unbond r.height hu sA s' evC hC
+    have fA := absencePhase_sameValue P r.height grace r.votes _ sA evA hA
+    have idA := absencePhase_ids P r.height grace r.votes _ sA evA hA
+    constructor
+    · rw [hf', fA.frozen, idA]; rfl
+    · rw [hbal, fA.frozen, fA.balances]
 
 /-- **Balances change only by matured non-move funds.** The balance of `(owner, coin)` after BeginBlock at `h` is the balance
     before plus the (possibly slashed) values of the funds of that owner and coin stored under `h` that are not moves.  In
     particular a balance none of whose owner's funds is due does not change at all. -/
 theorem balances_only_matured (P : Params) (o : Oracle) (s s' : State) (r : BeginReq) (grace : Bool) (ev : List BEvent)
-    (hr : beginBlock P o s r grace = .ok (s', ev)) :
+    (hu : 0 < P.unbond) (hr : beginBlock P o s r grace = .ok (s', ev)) :
     ∃ due : List Frozen, (∀ f ∈ due, f.height = r.height ∧ ∃ g, (g ∈ s.frozen ∨ g.height = r.height + P.unbond) ∧ g.height = f.height
                             ∧ g.addr = f.addr ∧ g.coin = f.coin ∧ g.moveTo = f.moveTo)
       ∧ ∀ k, Bag.get s'.balances k
           = Bag.get s.balances k + sumBy (fun f => if f.moveTo = 0 ∧ (f.addr, f.coin) = k then f.value else 0) due := by
-  obtain ⟨sA, evA, new, hA, hfr, hb, hnew⟩ := frozen_released_only_when_due P o s s' r grace ev hr
+  obtain ⟨sA, evA, new, hA, hfr, hb, hnew⟩ := frozen_released_only_when_due P o s s' r grace ev hu hr
   refine ⟨_, ?_, fun k => by rw [hb, creditAll_get]⟩
   intro f hf
   obtain ⟨hmem, hdue⟩ := List.mem_filter.mp hf
@@ -132,7 +162,7 @@ theorem balance_unchanged_without_due_fund (P : Params) (o : Oracle) (s s' : Sta
     (hr : beginBlock P o s r grace = .ok (s', ev)) (hu : 0 < P.unbond) (k : Addr × Coin)
     (hk : ∀ f ∈ s.frozen, f.height = r.height → f.moveTo = 0 → (f.addr, f.coin) ≠ k) :
     Bag.get s'.balances k = Bag.get s.balances k := by
-  obtain ⟨due, hdue, hget⟩ := balances_only_matured P o s s' r grace ev hr
+  obtain ⟨due, hdue, hget⟩ := balances_only_matured P o s s' r grace ev hu hr
   rw [hget k]
   suffices h : sumBy (fun f => if f.moveTo = 0 ∧ (f.addr, f.coin) = k then f.value else 0) due = 0 by omega
   have hz : ∀ f ∈ due, (if f.moveTo = 0 ∧ (f.addr, f.coin) = k then f.value else 0) = 0 := by
@@ -153,61 +183,110 @@ theorem balance_unchanged_without_due_fund (P : Params) (o : Oracle) (s s' : Sta
     rw [hz x (List.mem_cons_self ..), ih (fun f hf => hz f (List.mem_cons_of_mem _ hf))]
     rfl
 
-
 /-! ### Moves -/
 
-/-- **move_never_to_balance.** A matured move (`MoveToCandidateID ≠ 0`) leaves every balance as it is; it is appended, with
-    bip value 0, to the updates of the candidate with that id — which must exist. -/
-theorem move_never_to_balance (f : Frozen) (s s' : State) (e : BEvent) (hm : f.moveTo ≠ 0) (hr : matureOne f s = .ok (s', e)) :
+/-- **move_never_to_balance.** A matured move (`MoveToCandidateID ≠ 0`) leaves every balance as it is.  Either its target
+    candidate exists and the coins are appended, with bip value 0, to that candidate's updates; or the target is gone and the
+    coins are re-frozen as an unbond of the same owner due `h + unbond` (they reach the balance only one unbond period later,
+    as any coins leaving a stake). -/
+theorem move_never_to_balance (u h : Nat) (f : Frozen) (s s' : State) (e : List BEvent) (hm : f.moveTo ≠ 0)
+    (hr : matureOne u h f s = .ok (s', e)) :
     s'.balances = s.balances
-    ∧ ∃ c, findFirst (candById f.moveTo) s.candidates = some c
-        ∧ findFirst (candById f.moveTo) s'.candidates
-            = some { c with updates := c.updates ++ [{ owner := f.addr, coin := f.coin, value := f.value, bip := 0 }] } := by
-  obtain ⟨hb, ⟨c, h1, h2⟩, _, _⟩ := matureOne_move f s s' e hm hr
-  exact ⟨hb, c, h1, h2⟩
+    ∧ ((∃ c, findFirst (candById f.moveTo) s.candidates = some c
+          ∧ findFirst (candById f.moveTo) s'.candidates
+              = some { c with updates := c.updates ++ [{ owner := f.addr, coin := f.coin, value := f.value, bip := 0 }] }
+          ∧ s'.frozen = s.frozen)
+       ∨ (findFirst (candById f.moveTo) s.candidates = none ∧ s'.candidates = s.candidates
+          ∧ s'.frozen = s.frozen ++ [{ f with height := h + u, moveTo := 0 }])) := by
+  cases hc : findFirst (candById f.moveTo) s.candidates with
+  | none =>
+    rw [matureOne_refreeze u h f s hm hc] at hr
+    cases hr
+    exact ⟨rfl, Or.inr ⟨rfl, rfl, rfl⟩⟩
+  | some c =>
+    obtain ⟨hb, hf, h2, _, _⟩ := matureOne_move u h f s s' e hm c hc hr
+    exact ⟨hb, Or.inl ⟨c, rfl, h2, hf⟩⟩
 
-/-- A non-move fund is credited to its owner and touches no candidate. -/
-theorem unbond_to_balance (f : Frozen) (s s' : State) (e : BEvent) (hm : f.moveTo = 0) (hr : matureOne f s = .ok (s', e)) :
-    s'.balances = Bag.add s.balances (f.addr, f.coin) f.value ∧ s'.candidates = s.candidates := by
-  obtain ⟨hb, hc, _⟩ := matureOne_credit f s s' e hm hr
-  exact ⟨hb, hc⟩
+/-- A non-move fund is credited to its owner and touches no candidate and no fund. -/
+theorem unbond_to_balance (u h : Nat) (f : Frozen) (s s' : State) (e : List BEvent) (hm : f.moveTo = 0)
+    (hr : matureOne u h f s = .ok (s', e)) :
+    s'.balances = Bag.add s.balances (f.addr, f.coin) f.value ∧ s'.candidates = s.candidates ∧ s'.frozen = s.frozen := by
+  obtain ⟨hb, hc, hf, _⟩ := matureOne_credit u h f s s' e hm hr
+  exact ⟨hb, hc, hf⟩
 
-/-- A move whose target is not (any more) a candidate is never executed — not to a balance either: the node panics in
-    `Candidates.Delegate` (known finding F9: a target pruned before maturity stops the chain). -/
-theorem move_needs_existing_target (f : Frozen) (s : State) (hm : f.moveTo ≠ 0)
-    (hc : findFirst (candById f.moveTo) s.candidates = none) : ∀ s' e, matureOne f s ≠ .ok (s', e) := by
-  intro s' e h
-  obtain ⟨w, hw⟩ := matureOne_move_missing f s hm hc
-  rw [hw] at h; cases h
+/-- **A move towards a candidate that no longer exists is unbonded** (fix 0ed8cf3; before it the node dereferenced the missing
+    candidate — finding F9): no panic, no balance, no candidate changes; the coins become a fund of the same owner, coin, value
+    and origin that is not a move and is due exactly one unbond period after this height. -/
+theorem move_to_missing_target_unbonds (u h : Nat) (f : Frozen) (s : State) (hm : f.moveTo ≠ 0)
+    (hc : findFirst (candById f.moveTo) s.candidates = none) :
+    ∃ g, matureOne u h f s = .ok ({ s with frozen := s.frozen ++ [g] }, [])
+      ∧ g.height = h + u ∧ g.moveTo = 0 ∧ g.addr = f.addr ∧ g.coin = f.coin ∧ g.value = f.value
+      ∧ g.candKey = f.candKey ∧ g.candId = f.candId :=
+  ⟨refreeze u h f, matureOne_refreeze u h f s hm hc, rfl, rfl, rfl, rfl, rfl, rfl, rfl⟩
 
-theorem updates_grow_one (g : Frozen) (s s1 : State) (e : BEvent) (hr : matureOne g s = .ok (s1, e)) (id : Nat) (c : Candidate)
-    (hc : findFirst (candById id) s.candidates = some c) :
-    ∃ c1, findFirst (candById id) s1.candidates = some c1 ∧ ∀ u ∈ c.updates, u ∈ c1.updates := by
+theorem updates_grow_one (u h : Nat) (g : Frozen) (s s1 : State) (e : List BEvent) (hr : matureOne u h g s = .ok (s1, e))
+    (id : Nat) (c : Candidate) (hc : findFirst (candById id) s.candidates = some c) :
+    ∃ c1, findFirst (candById id) s1.candidates = some c1 ∧ ∀ x ∈ c.updates, x ∈ c1.updates := by
   by_cases h0 : g.moveTo = 0
-  · obtain ⟨_, hcd, _⟩ := matureOne_credit g s s1 e h0 hr
-    exact ⟨c, by rw [hcd]; exact hc, fun u hu => hu⟩
-  · obtain ⟨_, _, hcd, _⟩ := matureOne_move g s s1 e h0 hr
-    rcases findFirst_updFirst_cases (candById id) (candById g.moveTo) (addUpdate g) s.candidates (fun _ => rfl) with h | ⟨x, hx, h⟩
-    · exact ⟨c, by rw [hcd, h]; exact hc, fun u hu => hu⟩
-    · rw [hc] at hx; cases hx
-      exact ⟨addUpdate g c, by rw [hcd, h], fun u hu => by simp [addUpdate, hu]⟩
+  · obtain ⟨_, hcd, _, _⟩ := matureOne_credit u h g s s1 e h0 hr
+    exact ⟨c, by rw [hcd]; exact hc, fun x hx => hx⟩
+  · cases hg : findFirst (candById g.moveTo) s.candidates with
+    | none =>
+      rw [matureOne_refreeze u h g s h0 hg] at hr
+      cases hr
+      exact ⟨c, hc, fun x hx => hx⟩
+    | some cg =>
+      obtain ⟨_, _, _, hcd, _⟩ := matureOne_move u h g s s1 e h0 cg hg hr
+      rcases findFirst_updFirst_cases (candById id) (candById g.moveTo) (addUpdate g) s.candidates (fun _ => rfl) with h' | ⟨x, hx, h'⟩
+      · exact ⟨c, by rw [hcd, h']; exact hc, fun x hx => hx⟩
+      · rw [hc] at hx; cases hx
+        exact ⟨addUpdate g c, by rw [hcd, h'], fun x hx => by simp [addUpdate, hx]⟩
 
-/-- **Moved coins reach their target.** After the funds of a height have been applied, every move among them sits in the
-    updates of its target candidate. -/
-theorem moves_reach_target (l : List Frozen) (s s' : State) (ev : List BEvent) (hr : matureAll l s = .ok (s', ev)) :
-    ∀ f ∈ l, f.moveTo ≠ 0 →
-      ∃ c', findFirst (candById f.moveTo) s'.candidates = some c'
-        ∧ ({ owner := f.addr, coin := f.coin, value := f.value, bip := 0 } : Stake) ∈ c'.updates := by
-  induction l generalizing s ev with
-  | nil => intro f hf; cases hf
+theorem frozen_grows (u h : Nat) (l : List Frozen) (s s' : State) (ev : List BEvent) (hr : matureAll u h l s = .ok (s', ev)) :
+    ∀ x ∈ s.frozen, x ∈ s'.frozen := by
+  intro x hx
+  rw [(matureAll_effect u h l s s' ev hr).2.1]
+  exact List.mem_append_left _ hx
+
+theorem updates_grow (u h : Nat) (l : List Frozen) (s s' : State) (ev : List BEvent) (hr : matureAll u h l s = .ok (s', ev))
+    (id : Nat) (c : Candidate) (hc : findFirst (candById id) s.candidates = some c) :
+    ∃ c1, findFirst (candById id) s'.candidates = some c1 ∧ ∀ x ∈ c.updates, x ∈ c1.updates := by
+  induction l generalizing s ev c with
+  | nil => simp only [matureAll] at hr; cases hr; exact ⟨c, hc, fun x hx => hx⟩
   | cons g t ih =>
     simp only [matureAll] at hr
-    cases h1 : matureOne g s with
+    cases h1 : matureOne u h g s with
     | error e => simp only [h1] at hr; cases hr
     | ok r1 =>
       obtain ⟨s1, e1⟩ := r1
       simp only [h1] at hr
-      cases h2 : matureAll t s1 with
+      cases h2 : matureAll u h t s1 with
+      | error e => simp only [h2] at hr; cases hr
+      | ok r2 =>
+        obtain ⟨s2, e2⟩ := r2
+        simp only [h2] at hr
+        cases hr
+        obtain ⟨c1, hc1, hs1⟩ := updates_grow_one u h g s s1 e1 h1 id c hc
+        obtain ⟨c2, hc2, hs2⟩ := ih s1 e2 h2 c1 hc1
+        exact ⟨c2, hc2, fun x hx => hs2 x (hs1 x hx)⟩
+
+/-- **Moved coins reach their target — or are unbonded.** After the funds of a height have been applied, every move among
+    them sits in the updates of its target candidate, or (target gone) as an unbond fund due `h + unbond` in the frozen funds. -/
+theorem moves_reach_target (u h : Nat) (l : List Frozen) (s s' : State) (ev : List BEvent) (hr : matureAll u h l s = .ok (s', ev)) :
+    ∀ f ∈ l, f.moveTo ≠ 0 →
+      (∃ c', findFirst (candById f.moveTo) s'.candidates = some c'
+        ∧ ({ owner := f.addr, coin := f.coin, value := f.value, bip := 0 } : Stake) ∈ c'.updates)
+      ∨ (findFirst (candById f.moveTo) s'.candidates = none ∧ ({ f with height := h + u, moveTo := 0 } : Frozen) ∈ s'.frozen) := by
+  induction l generalizing s ev with
+  | nil => intro f hf; cases hf
+  | cons g t ih =>
+    simp only [matureAll] at hr
+    cases h1 : matureOne u h g s with
+    | error e => simp only [h1] at hr; cases hr
+    | ok r1 =>
+      obtain ⟨s1, e1⟩ := r1
+      simp only [h1] at hr
+      cases h2 : matureAll u h t s1 with
       | error e => simp only [h2] at hr; cases hr
       | ok r2 =>
         obtain ⟨s2, e2⟩ := r2
@@ -215,33 +294,17 @@ theorem moves_reach_target (l : List Frozen) (s s' : State) (ev : List BEvent) (
         cases hr
         intro f hf hm
         rcases List.mem_cons.mp hf with rfl | hf
-        · obtain ⟨_, c, _, hc1⟩ := move_never_to_balance f s s1 e1 hm h1
-          -- later items only append updates
-          have mono : ∀ (t : List Frozen) (sa sb : State) (eb : List BEvent), matureAll t sa = .ok (sb, eb) →
-              ∀ ca, findFirst (candById f.moveTo) sa.candidates = some ca →
-              ∃ cb, findFirst (candById f.moveTo) sb.candidates = some cb ∧ ∀ u ∈ ca.updates, u ∈ cb.updates := by
-            intro t
-            induction t with
-            | nil => intro sa sb eb h ca hca; simp only [matureAll] at h; cases h; exact ⟨ca, hca, fun u hu => hu⟩
-            | cons x t' iht =>
-              intro sa sb eb h ca hca
-              simp only [matureAll] at h
-              cases hx : matureOne x sa with
-              | error e => simp only [hx] at h; cases h
-              | ok rx =>
-                obtain ⟨sx, ex⟩ := rx
-                simp only [hx] at h
-                cases ht : matureAll t' sx with
-                | error e => simp only [ht] at h; cases h
-                | ok rt =>
-                  obtain ⟨st, et⟩ := rt
-                  simp only [ht] at h
-                  cases h
-                  obtain ⟨cx, hcx, hsub⟩ := updates_grow_one x sa sx ex hx f.moveTo ca hca
-                  obtain ⟨cb, hcb, hsub2⟩ := iht sx sb et ht cx hcx
-                  exact ⟨cb, hcb, fun u hu => hsub2 u (hsub u hu)⟩
-          obtain ⟨cb, hcb, hsub⟩ := mono t s1 s' e2 h2 _ hc1
-          exact ⟨cb, hcb, hsub _ (by simp)⟩
+        · obtain ⟨_, hcase⟩ := move_never_to_balance u h f s s1 e1 hm h1
+          rcases hcase with ⟨c, _, hc1, _⟩ | ⟨hnone, hcd, hfz⟩
+          · obtain ⟨cb, hcb, hsub⟩ := updates_grow u h t s1 s' e2 h2 f.moveTo _ hc1
+            exact Or.inl ⟨cb, hcb, hsub _ (by simp)⟩
+          · right
+            constructor
+            · -- the set of candidate ids never changes during maturity
+              have hid := (matureAll_effect u h t s1 s' e2 h2).2.2.2.ids
+              rw [findFirst_candById_none, hid, hcd, ← findFirst_candById_none]
+              exact hnone
+            · exact frozen_grows u h t s1 s' e2 h2 _ (by rw [hfz]; simp)
         · exact ih s1 e2 h2 f hf hm
 
 /-! ### Leaving a stake by punishment or removal -/
@@ -326,21 +389,11 @@ theorem lock_due (s : State) (sender : Addr) (due : Nat) (coin : Coin) (value : 
     (previous theorems); when the height is its due height it is removed, and — not being a move and with no evidence in the
     block — its full value is part of what the owner's balance gains. -/
 theorem due_fund_is_paid (P : Params) (o : Oracle) (s s' : State) (r : BeginReq) (grace : Bool) (ev : List BEvent)
-    (hr : beginBlock P o s r grace = .ok (s', ev)) (hb : r.byz = []) :
+    (hu : 0 < P.unbond) (hr : beginBlock P o s r grace = .ok (s', ev)) (hb : r.byz = []) :
     s'.balances = creditAll (s.frozen.filter (dueAt r.height)) s.balances
-    ∧ s'.frozen = s.frozen.filter (fun f => !dueAt r.height f) := by
-  refine ⟨?_, no_evidence_funds_untouched P o s s' r grace ev hr hb⟩
-  obtain ⟨sA, evA, new, hA, _, _, _⟩ := frozen_released_only_when_due P o s s' r grace ev hr
-  simp only [beginBlock, hA, hb, byzPhase] at hr
-  cases hC : maturityPhase r.height sA with
-  | error e => simp only [hC] at hr; cases hr
-  | ok rC =>
-    obtain ⟨sC, evC⟩ := rC
-    simp only [hC] at hr
-    cases hr
-    obtain ⟨_, hbal, _⟩ := maturityPhase_effect r.height sA s' evC hC
-    have fA := absencePhase_sameValue P r.height grace r.votes _ sA evA hA
-    rw [hbal, fA.frozen, fA.balances]
+    ∧ s'.frozen = s.frozen.filter (fun f => !dueAt r.height f) ++ refrozenOf P.unbond r.height (s.candidates.map (·.id)) s.frozen :=
+  let h := no_evidence_funds_untouched P o s s' r grace ev hu hr hb
+  ⟨h.2, h.1⟩
 
 -- non-vacuity
 private def candEx (id pk : Nat) : Candidate :=
@@ -367,6 +420,16 @@ private def viewUpd (r : M (State × List BEvent)) : List (List (Nat × Nat × I
 -- at height 100: the unbond and the lock are paid, the move becomes an update of candidate 2, the fund due at 101 stays
 example : viewBal (beginBlock {} noOracle sFr { height := 100 } false) = ([((21, 0), 40), ((23, 5), 60)], [101]) := by decide
 example : viewUpd (beginBlock {} noOracle sFr { height := 100 } false) = [[], [(22, 5, 50, 0)]] := by decide
+-- a move towards candidate id 9, which does not exist (any more), is unbonded: due 100 + 531, not a move, no balance
+private def sGone : State :=
+  { sFr with frozen := [{ height := 100, addr := 22, candKey := some 7, candId := 1, coin := 5, value := 50, moveTo := 9 }] }
+private def viewFr (r : M (State × List BEvent)) : List (Nat × Nat × Nat × Int × Nat) :=
+  match r with
+  | .ok (s', _) => s'.frozen.map (fun f => (f.height, f.addr, f.coin, f.value, f.moveTo))
+  | .error _ => []
+example : viewFr (beginBlock {} noOracle sGone { height := 100 } false) = [(631, 22, 5, 50, 0)] := by decide
+example : viewBal (beginBlock {} noOracle sGone { height := 100 } false) = ([], [631]) := by decide
+example : viewUpd (beginBlock {} noOracle sGone { height := 100 } false) = [[], []] := by decide
 -- at height 99 nothing happens
 example : viewBal (beginBlock {} noOracle sFr { height := 99 } false) = ([], [100, 100, 100, 101]) := by decide
 -- transactions: an unbond at block 10 is due at 541, a move at 187 towards candidate id 2, a lock exactly at its due block
